@@ -1,5 +1,7 @@
 import TaskModel.Sched.MonC07
 import TaskModel.Sched.CallLemmas
+import TaskModel.Sched.ProgressLemmas
+import TaskModel.Sched.DeadlockLemmas
 import TaskModel.Gen.Codes
 /-!
 # C07 — Bounded concurrency, no deadlock, guaranteed termination
@@ -162,6 +164,149 @@ was named on the command line -/
 theorem C07_cycle_error_wrapped (x : Act) (c : Cmd) :
     (x.afterCmd c (.typed 204)).res = (if x.indirect then .typed 204 else .run (.typed 204)) := by
   cases c <;> simp [Act.afterCmd, Act.fail]
+
+/-! ## deadlock freedom and termination
+
+The global statements are kept as `def … : Prop` — they are NOT proved here (they need the
+waits-for relation between activations to embed in the static call graph, and a
+well-founded measure on configurations).  Proved: no phase is a dead end, what each blocking
+phase waits for, and the machine-checked deadlock of a cycle through a `run: once` task. -/
+
+/-- the static references (`deps:` and `task:` commands) are acyclic -/
+def Acyclic (P : Program) : Prop :=
+  ∃ rank : Nat → Nat, ∀ t d, P[t]? = some d →
+    (∀ u ∈ d.deps, rank u < rank t) ∧ (∀ u dfr, Cmd.call u dfr ∈ d.cmds → rank u < rank t)
+
+/-- dedup keys identify the task (in the code: a hash of the task and its variables); the
+model accepts any key, so liveness needs this restriction on the trace -/
+def KeysByTask (tr : List Label) : Prop :=
+  ∃ keyTask : Nat → Nat, ∀ l ∈ tr, ∀ k, (l.ev = .register k ∨ l.ev = .waiter k) →
+    ∀ kind t, enterOf l.act tr = some (kind, t) → keyTask k = t
+
+/-- FULL STATEMENT (not discharged): for acyclic programs and at least one slot, every
+reachable configuration in which some activation has not returned accepts a next label -/
+def C07_no_deadlock : Prop :=
+  ∀ (P : Program) (F : Flags) (n : Nat) (tr : List Label) (c : Config),
+    Acyclic P → F.cap ≠ some 0 → KeysByTask tr → replay P F (init n) tr = some c →
+    (∃ a x, c.act? a = some x ∧ x.phase ≠ .done) → ∃ l, (step P F c l).isSome = true
+
+/-- FULL STATEMENT (not discharged): for acyclic programs every run is finite -/
+def C07_terminates : Prop :=
+  ∀ (P : Program) (F : Flags) (n : Nat), Acyclic P →
+    ∃ bound, ∀ (tr : List Label) (c : Config), replay P F (init n) tr = some c → tr.length ≤ bound
+
+/-- **C07 (no phase is a dead end).** Every activation of every reachable configuration is
+well-formed and, unless it has returned, has an event (`someEv`) that is accepted as soon as
+what it waits for has arrived (`freeObs`: a free slot, the dependencies / callee / registered
+execution returned). -/
+theorem C07_no_dead_end (P : Program) (F : Flags) (n : Nat) (tr : List Label) (c : Config)
+    (h : replay P F (init n) tr = some c) (a : Nat) (x : Act) (hx : c.act? a = some x)
+    (hnd : x.phase ≠ .done) : WF x ∧ (stepLocal F freeObs x (someEv F x)).isSome = true := by
+  have hw : WF x := localInv_sound WF P F (WF_fresh P F) (fun o x ev y eff => WF_local F o x ev y eff)
+    (fun x k hw => ⟨hw.rest, hw.stack, hw.defers, hw.running⟩) n tr c h a x hx
+  exact ⟨hw, someEv_enabled F x hw hnd⟩
+
+/-- **C07 (what blocks).** An activation that has not returned and is not in one of the
+waiting phases (`entered`/`wWoken`/`callReturned`: a slot; `wReleased`: the registered
+execution; `depsWait`: the dependencies and a slot; `inCall`: the callee) can move whatever
+the other activations do (`acquired`: `acquired_enabled`; `depsJoined`: `depsDone`). -/
+theorem C07_only_waits_block (P : Program) (F : Flags) (n : Nat) (tr : List Label) (c : Config)
+    (h : replay P F (init n) tr = some c) (a : Nat) (x : Act) (hx : c.act? a = some x)
+    (hnd : x.phase ≠ .done) (hn : waitsOn x.phase = .nothing) (h1 : x.phase ≠ .acquired)
+    (h2 : x.phase ≠ .depsJoined) : (step P F c ⟨a, someEv F x⟩).isSome = true := by
+  have hw := (C07_no_dead_end P F n tr c h a x hx hnd).1
+  have hen := nonblocking_enabled F (obsOf F c a x) x hw hnd hn h1 h2
+  have hne : ∀ k t, someEv F x ≠ .enter k t := by
+    intro k t e
+    have := hen; rw [e] at this; simp [stepLocal] at this
+  cases hs : stepLocal F (obsOf F c a x) x (someEv F x) with
+  | none => rw [hs] at hen; cases hen
+  | some p =>
+    obtain ⟨y, eff⟩ := p
+    unfold step
+    split
+    · rename_i k t he; exact absurd he (hne k t)
+    · simp [hx, hs]
+
+/-- a task that runs once and depends on itself -/
+def onceDep : Program := [{ run := .once, deps := [0] }]
+/-- … or calls itself -/
+def onceCall : Program := [{ run := .once, cmds := [.call 0 false] }]
+
+def onceDepRun : List Label :=
+  [⟨1, .enter (.top 0) 0⟩, ⟨1, .acquire⟩, ⟨1, .register 0⟩, ⟨1, .depsRelease⟩,
+   ⟨2, .enter (.dep 1 0) 0⟩, ⟨2, .acquire⟩, ⟨2, .waiter 0⟩, ⟨2, .wRelease⟩]
+
+def onceCallRun : List Label :=
+  [⟨1, .enter (.top 0) 0⟩, ⟨1, .acquire⟩, ⟨1, .register 0⟩, ⟨1, .depsRelease⟩, ⟨1, .depsReacq⟩, ⟨1, .depsDone .ok⟩,
+   ⟨1, .guardsPassed⟩, ⟨1, .callRelease 0 false⟩,
+   ⟨2, .enter (.call 1 0 false) 0⟩, ⟨2, .acquire⟩, ⟨2, .waiter 0⟩, ⟨2, .wRelease⟩]
+
+/-- **C07 counterexample (cycle through a `run: once` task, via `deps:`).** The executor
+reaches a configuration in which the registered execution waits for its dependency
+(`depsWait`) and that dependency — a deduplicated waiter on the very same execution —
+waits for it (`wReleased`): all slots are free, no activation can move, no new activation
+can enter: no label at all is accepted, under any `--concurrency`.  The call counter never
+gets near its limit: the cycle ends in a hang, not in error 204. -/
+theorem C07_once_cycle_deadlock :
+    ∃ c, replay onceDep {} (init 1) onceDepRun = some c ∧
+      (c.tokens = 0 ∧ c.callCount 0 = 2 ∧
+       (c.act? 1).map (·.phase) = some .depsWait ∧ (c.act? 2).map (·.phase) = some .wReleased) ∧
+      ∀ l, step onceDep {} c l = none := by
+  cases hr : replay onceDep {} (init 1) onceDepRun with
+  | none => exact absurd hr (by decide)
+  | some c =>
+    have h1 : (replay onceDep {} (init 1) onceDepRun).map deadlocked = some true := by decide
+    have h2 : (replay onceDep {} (init 1) onceDepRun).map (fun c => (c.tokens, c.callCount 0,
+        (c.act? 1).map (·.phase), (c.act? 2).map (·.phase))) = some (0, 2, some .depsWait, some .wReleased) := by
+      decide
+    rw [hr] at h1 h2
+    simp only [Option.map_some, Option.some.injEq, Prod.mk.injEq] at h1 h2
+    exact ⟨c, rfl, ⟨h2.1, h2.2.1, h2.2.2.1, h2.2.2.2⟩, deadlocked_sound onceDep {} c h1⟩
+
+/-- the same through a `task:` command: the caller waits for its callee (`inCall`), the
+callee waits for the caller's execution -/
+theorem C07_once_cycle_deadlock_call :
+    ∃ c, replay onceCall {} (init 1) onceCallRun = some c ∧
+      (c.tokens = 0 ∧ (c.act? 1).map (·.phase) = some (.inCall 0 false) ∧
+       (c.act? 2).map (·.phase) = some .wReleased) ∧
+      ∀ l, step onceCall {} c l = none := by
+  cases hr : replay onceCall {} (init 1) onceCallRun with
+  | none => exact absurd hr (by decide)
+  | some c =>
+    have h1 : (replay onceCall {} (init 1) onceCallRun).map deadlocked = some true := by decide
+    have h2 : (replay onceCall {} (init 1) onceCallRun).map (fun c => (c.tokens,
+        (c.act? 1).map (·.phase), (c.act? 2).map (·.phase))) = some (0, some (.inCall 0 false), some .wReleased) := by
+      decide
+    rw [hr] at h1 h2
+    simp only [Option.map_some, Option.some.injEq, Prod.mk.injEq] at h1 h2
+    exact ⟨c, rfl, ⟨h2.1, h2.2.1, h2.2.2⟩, deadlocked_sound onceCall {} c h1⟩
+
+/-- hence deadlock freedom cannot be extended to cyclic programs: "cyclic task references
+end with an error rather than hanging" is FALSE for cycles through `run: once` (and
+`run: when_changed`) tasks -/
+theorem C07_cyclic_counterexample :
+    ¬ (∀ (P : Program) (F : Flags) (n : Nat) (tr : List Label) (c : Config),
+        F.cap ≠ some 0 → KeysByTask tr → replay P F (init n) tr = some c →
+        (∃ a x, c.act? a = some x ∧ x.phase ≠ .done) → ∃ l, (step P F c l).isSome = true) := by
+  intro hall
+  obtain ⟨c, hr, ⟨_, _, h1, _⟩, hstuck⟩ := C07_once_cycle_deadlock
+  have hk : KeysByTask onceDepRun := by
+    refine ⟨fun _ => 0, ?_⟩
+    intro l hl k _ kind t he
+    have : ∀ l ∈ onceDepRun, (match enterOf l.act onceDepRun with | some (_, t) => t == 0 | none => true) = true := by
+      decide
+    have h0 := this l hl
+    rw [he] at h0
+    exact (beq_iff_eq.mp h0).symm
+  cases hx : c.act? 1 with
+  | none => rw [hx] at h1; cases h1
+  | some x =>
+    rw [hx] at h1
+    simp only [Option.map_some, Option.some.injEq] at h1
+    obtain ⟨l, hl⟩ := hall onceDep {} 1 onceDepRun c (by decide) hk hr ⟨1, x, hx, by rw [h1]; decide⟩
+    rw [hstuck l] at hl
+    cases hl
 
 /-! ## non-vacuity -/
 
